@@ -355,8 +355,13 @@ class Report:
                 env.update({"HOME": d, "TMPDIR": d})
                 env.update(pr.get("env") or {})
                 try:
-                    q = subprocess.run([JUST] + pr["argv"], cwd=os.path.join(d, pr.get("cwd", "")), env=env,
-                                       input=(pr.get("stdin") or "").encode(), stdout=subprocess.PIPE, stderr=subprocess.PIPE, timeout=30)
+                    limit = None
+                    if pr.get("rlimit_as_mb"):
+                        def limit(mb=pr["rlimit_as_mb"]):
+                            import resource
+                            resource.setrlimit(resource.RLIMIT_AS, (mb << 20, mb << 20))
+                    q = subprocess.run([JUST] + pr["argv"], cwd=os.path.join(d, pr.get("cwd", "")), env=env, preexec_fn=limit,
+                                       input=(pr.get("stdin") or "").encode(), stdout=subprocess.PIPE, stderr=subprocess.PIPE, timeout=pr.get("timeout", 30))
                     rc, out, err = q.returncode, q.stdout.decode("utf-8", "replace"), q.stderr.decode("utf-8", "replace")
                 except subprocess.TimeoutExpired:
                     rc, out, err = None, "", "timeout"
